@@ -82,6 +82,10 @@ type Term struct {
 	ranged bool   // variable declared with a value range (asserted once per solver process)
 	rlo, rhi uint64
 	rngDone bool
+	sv      *Term // the only variable t depends on (nil: none); multi = true if more than one
+	multi   bool
+	depth   int32
+	canon   *Term // result of small-domain canonicalisation (cache)
 	rngLo, rngHi uint64
 }
 
@@ -131,7 +135,22 @@ func (c *TermCtx) mk(op Op, w uint8, val uint64, name string, args []*Term) *Ter
 		return t
 	}
 	t := &Term{op: op, w: w, val: val, name: name, args: args, id: int32(len(c.terms))}
+	if op == OVar {
+		t.sv = t
+	}
 	for _, a := range args {
+		if a.depth+1 > t.depth {
+			t.depth = a.depth + 1
+		}
+		if a.multi {
+			t.multi = true
+		} else if a.sv != nil {
+			if t.sv == nil {
+				t.sv = a.sv
+			} else if t.sv != a.sv {
+				t.multi = true
+			}
+		}
 		if a.hasFP {
 			t.hasFP = true
 		}
@@ -436,7 +455,104 @@ func (c *TermCtx) op(op Op, w int, extra uint64, args ...*Term) *Term {
 			return c.Const(w, v)
 		}
 	}
-	return c.mk(op, uint8(w), extra, "", args)
+	t := c.mk(op, uint8(w), extra, "", args)
+	return c.smallDomain(t)
+}
+
+// smallDomain: a bit-vector term that depends on ONE ranged variable with at most 64 values
+// and is built from division / remainder / multiplication / nested selects is replaced by
+// its canonical form over that domain — a constant, an affine function a*v+b, or a select
+// chain on v — obtained by evaluating it on every value of the domain. (Sound: the range
+// is part of the variable and asserted in every solver process.) This is what makes digit
+// round trips (format then parse of a small-range number) fold without the solver.
+func (c *TermCtx) smallDomain(t *Term) *Term {
+	if t.w == 0 || t.multi || t.sv == nil || !t.sv.ranged || t.hasFP {
+		return t
+	}
+	switch t.op {
+	case OUDiv, OURem, OSDiv, OSRem, OMul:
+	case OAdd, OSub, OIte, OExtract, OZExt, OSExt, OConcat:
+		if t.depth < 4 {
+			return t
+		}
+	default:
+		return t
+	}
+	if t.canon != nil {
+		return t.canon
+	}
+	v := t.sv
+	n := v.rhi - v.rlo
+	if n >= 64 {
+		return t
+	}
+	vals := make([]uint64, n+1)
+	for i := uint64(0); i <= n; i++ {
+		val, ok := c.Eval(t, Model{v.name: v.rlo + i})
+		if !ok {
+			return t
+		}
+		vals[i] = val
+	}
+	w := int(t.w)
+	var res *Term
+	// constant?
+	same := true
+	for _, x := range vals {
+		if x != vals[0] {
+			same = false
+			break
+		}
+	}
+	vv := v
+	var vw *Term // v resized to the term's width
+	if int(v.w) == w {
+		vw = v
+	} else if int(v.w) < w {
+		vw = c.mk(OZExt, uint8(w), 0, "", []*Term{v})
+	} else {
+		vw = c.mk(OExtract, uint8(w), uint64(w-1)<<8, "", []*Term{v})
+	}
+	_ = vv
+	switch {
+	case same:
+		res = c.Const(w, vals[0])
+	default:
+		// affine a*v+b (mod 2^w)?
+		m := mask(uint8(w))
+		a := (vals[1] - vals[0]) & m
+		aff := true
+		for i := uint64(0); i <= n; i++ {
+			if (vals[0]+a*i)&m != vals[i] {
+				aff = false
+				break
+			}
+		}
+		if aff && (v.rhi <= m) {
+			b := (vals[0] - a*v.rlo) & m
+			res = c.fromAffine(w, a, vw, b)
+		} else {
+			res = c.Const(w, vals[n])
+			for i := int64(n) - 1; i >= 0; i-- {
+				cond := c.mk(OEq, 0, 0, "", orderArgs(c.Const(int(v.w), v.rlo+uint64(i)), v))
+				if res.op == OConst && res.val == vals[i] {
+					continue
+				}
+				res = c.mk(OIte, uint8(w), 0, "", []*Term{cond, c.Const(w, vals[i]), res})
+				res.canon = res
+			}
+		}
+	}
+	t.canon = res
+	res.canon = res
+	return res
+}
+
+func orderArgs(a, b *Term) []*Term {
+	if a.id > b.id {
+		return []*Term{b, a}
+	}
+	return []*Term{a, b}
 }
 
 // ---------- constructors with simplification ----------
@@ -760,10 +876,12 @@ func (c *TermCtx) fromAffine(w int, a uint64, v *Term, b uint64) *Term {
 	}
 	var t *Term = v
 	if a != 1 {
-		t = c.op(OMul, w, 0, v, c.Const(w, a))
+		t = c.mk(OMul, uint8(w), 0, "", []*Term{v, c.Const(w, a)})
+		t.canon = t
 	}
 	if b != 0 {
-		t = c.op(OAdd, w, 0, t, c.Const(w, b))
+		t = c.mk(OAdd, uint8(w), 0, "", []*Term{t, c.Const(w, b)})
+		t.canon = t
 	}
 	return t
 }
